@@ -96,6 +96,10 @@ def run(cx):
     from props.C02 import inst_resync_guard, inst_emit_guards
     inst_resync_guard(cx, "C05.f")
     inst_emit_guards(cx, "C05.g")
+    from props.shared import pipeline_presence, dispatch_table, ack_processing_presence
+    pipeline_presence(cx, "C05.h")
+    dispatch_table(cx, "C05.i", only={"DataFrame", "SyncFrame", "AckFrame"})
+    ack_processing_presence(cx, "C05.j")
     with cx.instance("C05.e", "T3 WHO-MAY", "the send queue loses packets only through the stale-TimeSensitive drop and the move into the send window", floor=2) as inst:
         b = R.body("PacketSender::emit_packet")
         pops = call_sites(b, "VecDeque::pop_front", r"arg1\.packet_send_queue")
